@@ -47,6 +47,7 @@ type c18Entry struct {
 	Platform   string   `json:"platform,omitempty"`
 	Backup     string   `json:"backup,omitempty"`      // "" | tag | repo
 	Switches   []string `json:"switches,omitempty"`    // referrers digestTags fastCheck forceRecursive
+	InDefaults bool     `json:"in_defaults,omitempty"` // the switches are written in the defaults: block, the entry leaves them unset
 	MediaTypes string   `json:"media_types,omitempty"` // "" (default list) | oci
 }
 
@@ -112,6 +113,9 @@ func (c c18Case) String() string {
 			s += " backup=" + e.Backup
 		}
 		if len(e.Switches) > 0 {
+			if e.InDefaults {
+				s += " defaults:"
+			}
 			s += " " + strings.Join(e.Switches, "+")
 		}
 		if e.MediaTypes != "" {
@@ -169,6 +173,14 @@ func c18YAML(c c18Case) string {
 	if c.Parallel > 0 {
 		fmt.Fprintf(&sb, "  parallel: %d\n", c.Parallel)
 	}
+	for _, e := range c.Entries {
+		if e.InDefaults {
+			for _, sw := range e.Switches {
+				fmt.Fprintf(&sb, "  %s: true\n", sw)
+			}
+			break
+		}
+	}
 	sb.WriteString("sync:\n")
 	for _, e := range c.Entries {
 		var src, tgt string
@@ -199,8 +211,10 @@ func c18YAML(c c18Case) string {
 		if e.Backup != "" {
 			fmt.Fprintf(&sb, "    backup: %q\n", c18BackupTemplate(e.Backup))
 		}
-		for _, sw := range e.Switches {
-			fmt.Fprintf(&sb, "    %s: true\n", sw)
+		if !e.InDefaults {
+			for _, sw := range e.Switches {
+				fmt.Fprintf(&sb, "    %s: true\n", sw)
+			}
 		}
 		if e.MediaTypes == "oci" {
 			c18YAMLList(&sb, "    ", "mediaTypes", []string{graphs.MTOCIManifest, graphs.MTOCIIndex})
@@ -305,6 +319,11 @@ func c18LoadTargetRepo(h *modelreg.Host, repo, pop string, src []c18TagImg, rena
 	}
 	switch {
 	case pop == "T-empty":
+	case pop == "T-same":
+		// every tag already points at the source's image, without its referrers or digest tags
+		for _, ti := range src {
+			c18LoadImage(h.Repo(repo), ti.Graph, rename(ti.Tag), false)
+		}
 	case pop == "T-part":
 		for i, ti := range src {
 			if i%2 == 0 {
